@@ -95,6 +95,18 @@ class Rec(ast.NodeTransformer):
         return node
 
 
+_TMP = []
+
+
+def _tmpdir():
+    """One scratch directory per process (the condition's source must be a real file); removed at exit."""
+    if not _TMP:
+        import atexit, shutil
+        _TMP.append(tempfile.mkdtemp(prefix="exprfam"))
+        atexit.register(shutil.rmtree, _TMP[0], True)
+    return _TMP[0]
+
+
 def reference(cond_src, kwargs, glob):
     RECORD.clear()
     tree = ast.parse(cond_src, mode="eval")
@@ -117,7 +129,7 @@ def reference(cond_src, kwargs, glob):
 
 def run_source(scn):
     """A scenario given as a whole module source (layout matters): {"source": ..., "call": "f(...)"}."""
-    d = tempfile.mkdtemp(prefix="exprfam")
+    d = _tmpdir()
     path = os.path.join(d, "layout_%d.py" % abs(hash(scn["source"])))
     open(path, "w").write(scn["source"])
     env = {"Guard": Guard, "ident": ident}
@@ -142,7 +154,7 @@ def run(scn):
     cond_src = scn["cond"]
     params = ", ".join(kwargs)
     src = "import icontract\n@icontract.require(%s)\ndef f(%s):\n    return 1\n" % (cond_src, params)
-    d = tempfile.mkdtemp(prefix="exprfam")
+    d = _tmpdir()
     path = os.path.join(d, "m_%d.py" % abs(hash(src)))
     open(path, "w").write(src)
     env = dict(glob)
@@ -184,6 +196,21 @@ def run(scn):
             k, v = ln.split(" was ", 1)
             shown[k.lstrip(": ")] = v
     a_repr = icontract.aRepr
+    if scn.get("example") is not None:
+        # C06/C20: the example of a failing all(<generator>) is the first falsifying assignment, rendered through a_repr
+        ex_lines, on = {}, False
+        for ln in rest.split("\n"):
+            if ln.rstrip().endswith("was False, e.g., with"):
+                on = True
+            elif on and ln.startswith("  ") and " = " in ln:
+                k, v = ln.strip().split(" = ", 1)
+                ex_lines[k] = v
+            elif " was " in ln:
+                on = False
+        want = {k: a_repr.repr(eval(v, dict(glob))) for k, v in scn["example"].items()}
+        if ex_lines != want:
+            problems.append({"what": "the example of a failing all() is not the first falsifying assignment rendered through a_repr",
+                             "shown": {k: v[:200] for k, v in ex_lines.items()}, "expected": want})
     for k, v in shown.items():
         if k in rec:
             if v.startswith("False, e.g., with"):
@@ -231,7 +258,13 @@ def scenarios():
     yield "fstring", S("lambda x: f'{x!r:>4}' == 'nope'", {"x": "7"})
     yield "walrus", S("lambda x: (y := x + 1) > 100 and y > 0", {"x": "1"})
     yield "list comprehension", S("lambda xs: sum([x * 2 for x in xs if x > 1]) > 100", {"xs": "[1, 2, 3]"})
-    yield "all with generator", S("lambda xs, lim: all(x < lim for x in xs)", {"xs": "[1, 5, 2, 7]", "lim": "4"})
+    yield "all with generator", S("lambda xs, lim: all(x < lim for x in xs)", {"xs": "[1, 5, 2, 7]", "lim": "4"}, example={"x": "5"})
+    yield "all example large value bounded", S("lambda rows: all(len(r) < 3 for r in rows)", {"rows": "[[1], list(range(1000)), [2]]"}, example={"r": "list(range(1000))"})
+    yield "all example two loop variables", S("lambda ps: all(a < b for a, b in ps)", {"ps": "[(1, 2), (4, 3), (9, 0)]"}, example={"a": "4", "b": "3"})
+    yield "chained comparison inside a call", S("lambda lo, x, hi: ident(lo <= x < hi) or x == -1", {"lo": "0", "x": "7", "hi": "5"})
+    yield "chained comparison of four operands inside or", S("lambda a, b, c, d: (a < b <= c < d) or ident(a) > 100", {"a": "1", "b": "9", "c": "9", "d": "2"})
+    yield "global named like a builtin", S("lambda x: x > max", {"x": "1"}, globals={"max": "7"})
+    yield "global named like a builtin used as a value and a builtin called", S("lambda xs: len(xs) > format", {"xs": "[1]"}, globals={"format": "5"})
     yield "nested all", S("lambda rows: all(all(c > 0 for c in r) for r in rows)", {"rows": "[[1, 2], [3, -1]]"}, incomplete_ok=True)
     yield "set and tuple displays", S("lambda a, b: len({a, b}) + len((a, b, a)) > 100", {"a": "1", "b": "2"})
     yield "many arguments sorted", S("lambda zeta, alpha, mid: zeta + alpha + mid > 100", {"zeta": "1", "alpha": "2", "mid": "3"})
